@@ -48,6 +48,10 @@ pub struct Case {
     pub ops: Vec<Op>,
     /// reply policy for the k-th request transmitted (cycled)
     pub replies: Vec<Reply>,
+    /// after the associations have been added, one more is asked for with the address of association #k (modulo their
+    /// number): it is refused, and must leave no trace in the rotation
+    #[serde(default)]
+    pub duplicate_add: Option<u8>,
 }
 
 fn addr(i: usize) -> u16 {
@@ -128,11 +132,13 @@ impl Prop for Sched {
             proptest::collection::vec(assoc, 1..=4),
             proptest::collection::vec(op, 1..n),
             proptest::collection::vec(reply, 1..8),
+            prop_oneof![2 => Just(None), 1 => any::<u8>().prop_map(Some)],
         )
-            .prop_map(|(assocs, ops, replies)| Case {
+            .prop_map(|(assocs, ops, replies, duplicate_add)| Case {
                 assocs,
                 ops,
                 replies,
+                duplicate_add,
             })
             .boxed()
     }
@@ -195,6 +201,20 @@ async fn run_case(case: &Case) -> CaseOut {
             out.nontrivial = true;
         }
         polls.push(ps);
+    }
+    if let (Some(k), true) = (case.duplicate_add, n >= 1) {
+        let i = k as usize % n;
+        out.label("duplicate_association_refused");
+        if !rig
+            .add_duplicate_association(addr(i), assoc_config(TIMEOUT))
+            .await
+        {
+            out.fail(Fail::new(
+                "duplicate-address-accepted",
+                format!("a second association with the address {} was accepted", addr(i)),
+            ));
+            return out;
+        }
     }
     rig.connect().await;
     // last frame received by the master from each outstation (link activity), for the keep-alive rule
